@@ -18,6 +18,11 @@ EXTENDS Gfx
 
 CONSTANT RV   \* "code" | "cell-height-plus-1" | "bpp-plus-1" | "gate-ignores-palette" | "whole-at-render-size"
               \* | "second-cell-read" (iTerm2 LINES: strip height from a later get_cell_size() read)
+              \* | "encode-in-blocks" (iTerm2 WHOLE / ANIM payloads read and base64-encoded 1024 bytes at a
+              \*   time, the pieces concatenated; 1024 is not a multiple of 3)
+
+\* block size of the payload encoder (Gfx (f)): 0 = standard_b64encode(stream.read()) in one piece
+EncBlock(lines) == IF RV = "encode-in-blocks" /\ ~lines THEN 1024 ELSE 0
 
 VARIABLES job, k, pos, R, verdict, out
 vars == <<job, k, pos, R, verdict, out>>
@@ -87,7 +92,7 @@ Strips(j) == IF j.method = "lines" THEN j.geo.rh ELSE 1
 \* lengths a zlib stream / PNG of n raw bytes may have (abstract: a few representatives)
 PackedLens(n) == {1, (n \div 2) + 1, n + 11}
 
-NoProj == [tb64 |-> 0, pad |-> 0, dlen |-> -1, ilen |-> -1, rows_lo |-> -1, rows_hi |-> -1, pix |-> -1]
+NoProj == [tb64 |-> 0, pad |-> 0, pad1 |-> -1, dlen |-> -1, ilen |-> -1, rows_lo |-> -1, rows_hi |-> -1, pix |-> -1]
 
 Init ==
   /\ job \in Jobs
@@ -107,7 +112,8 @@ KittyStrip ==
                               !.C = 1, !.c = job.geo.rw, !.r = (IF lines THEN 1 ELSE job.geo.rh)]
      IN \E plen \in (IF job.compress > 0 THEN PackedLens(n) ELSE {n}) :
           LET t == Transmit(R, PInit(B64Len(plen)), rec, "code", "ok")
-              e == [NoProj EXCEPT !.tb64 = t.R.last, !.pad = B64Pad(plen), !.dlen = plen,
+              e == [NoProj EXCEPT !.tb64 = t.R.last, !.pad = B64Pad(plen), !.pad1 = Stream(plen, 0).pad1,
+                                  !.dlen = plen,
                                   !.ilen = (IF job.compress > 0 THEN n ELSE -1),
                                   !.rows_lo = pos \div RowBytes(job),
                                   !.rows_hi = (pos + n) \div RowBytes(job),
@@ -124,10 +130,15 @@ KittyStrip ==
              /\ out' = "kitty-strip"
   /\ UNCHANGED job
 
-ITermEvent(kind, isfile, w, h, mode, lo, hi, pix, len, rw, hc) ==
+\* the payload is what the encoder (block size blk) makes of len bytes; a strict decoder
+\* obtains len bytes iff the stream is ONE base64 string
+ITermEvent(kind, isfile, w, h, mode, lo, hi, pix, len, rw, hc, blk) ==
+  LET st == Stream(len, blk) IN
   [proto |-> "iterm2", keys |-> <<"size", "width", "height", "preserveAspectRatio", "inline">>,
-   inline |-> 1, par |-> 0, b64ok |-> TRUE, b64len |-> B64Len(len), tb64 |-> B64Len(len),
-   pad |-> B64Pad(len), dlen |-> len, size |-> len, wcells |-> rw, hcells |-> hc,
+   inline |-> 1, par |-> 0, b64ok |-> (st.pad1 = -1 \/ st.pad1 = st.len - st.pad),
+   b64len |-> st.len, tb64 |-> st.len, pad |-> st.pad, pad1 |-> st.pad1,
+   dlen |-> (IF st.pad1 = -1 \/ st.pad1 = st.len - st.pad THEN len ELSE -1),
+   size |-> len, wcells |-> rw, hcells |-> hc,
    isfile |-> isfile, kind |-> kind, imgw |-> w, imgh |-> h, imgmode |-> mode,
    rows_lo |-> lo, rows_hi |-> hi, pix |-> pix]
 
@@ -137,7 +148,7 @@ ITermFile ==
   /\ (NativeAnimCode(job) /\ job.readable) \/ (~NativeAnimCode(job) /\ CodeGate(job))
   /\ \E len \in {1, 3000} :
        LET e == ITermEvent("png", 1, job.geo.orig[1], job.geo.orig[2], job.mode, -1, -1, -1, len,
-                           job.geo.rw, job.geo.rh)
+                           job.geo.rw, job.geo.rh, EncBlock(FALSE))
        IN verdict' = Judge(ITermClause(Hdr(job), k, e, NoFirst))
   /\ k' = Strips(job) /\ out' = "iterm-file"
   /\ UNCHANGED <<job, pos, R>>
@@ -147,7 +158,7 @@ ITermResave ==
   /\ job.style = "iterm2" /\ k = 0
   /\ NativeAnimCode(job) /\ ~job.readable
   /\ LET e == ITermEvent("gif", 0, job.geo.orig[1], job.geo.orig[2], job.mode, -1, -1, -1, 3000,
-                         job.geo.rw, job.geo.rh)
+                         job.geo.rw, job.geo.rh, EncBlock(FALSE))
      IN verdict' = Judge(ITermClause(Hdr(job), k, e, NoFirst))
   /\ k' = Strips(job) /\ out' = "iterm-resave"
   /\ UNCHANGED <<job, pos, R>>
@@ -163,12 +174,12 @@ ITermReenc ==
          hpx == IF lines THEN CellHeight(job) ELSE Size(job)[2]
          \* PIL.Image.frombytes needs exactly width*cell_height*bands bytes
          okbytes == n = Size(job)[1] * hpx * Bpp(job)
-     IN \E len \in {1, n + 11} :
+     IN \E len \in ({1, n + 11} \cup (IF lines THEN {} ELSE {3000})) :
           LET e == ITermEvent(kind, 0, Size(job)[1], hpx, OutMode(job), pos \div RowBytes(job),
                               (pos + n) \div RowBytes(job),
                               (IF okbytes /\ pos % RowBytes(job) = 0 /\ hpx * Strips(job) = Size(job)[2]
                                  THEN 1 ELSE 0), len,
-                              job.geo.rw, (IF lines THEN 1 ELSE job.geo.rh))
+                              job.geo.rw, (IF lines THEN 1 ELSE job.geo.rh), EncBlock(lines))
           IN verdict' = Judge(IF okbytes THEN ITermClause(Hdr(job), k, e, (IF k = 0 THEN NoFirst ELSE <<Size(job)[1], hpx>>))
                               ELSE "render-raises: frombytes gets the wrong number of bytes")
        /\ pos' = pos + n
